@@ -53,12 +53,21 @@ for sd in sorted(glob.glob(os.path.join(V, "seeded", "C??", "?"))):
     sid = "/".join(sd.split("/")[-2:])
     meta = json.load(open(os.path.join(sd, "meta.json")))
     cb = mx.get(sid, {}).get("caught_by", {})
+    if "error" in mx.get(sid, {}):
+        cr = {}
+        crp = os.path.join(sd, "check_result.json")
+        if os.path.exists(crp):
+            cr = json.load(open(crp))
+        own = [p for p, v in cr.items() if v.get("exit") == 1 and v.get("violations")]
+        rows.append("| %s | %s | n/a on the final tree (on its base commit: %s) | %s | %s |" % (sid, meta.get("summary", "").replace("|", "\\|")[:230], ", ".join(own) or "—", hist.get(sid, {}).get("first", "?"), hist.get(sid, {}).get("strengthened", "")))
+        continue
     cbt = "; ".join("%s: %s" % (p, ", ".join(sorted(set(r.replace(p + "-", "") for r in v)))) for p, v in sorted(cb.items())) or "—"
     h = hist.get(sid, {})
     rows.append("| %s | %s | %s | %s | %s |" % (sid, meta.get("summary", "").replace("|", "\\|")[:230], cbt, h.get("first", "?"), h.get("strengthened", "")))
 n = len(rows) - 2
 first_caught = sum(1 for v in hist.values() if v.get("first") == "caught")
-put("SEEDTABLE", "\n".join(rows) + "\n\n%d seeded changes kept; %d were reported by the check of their own property as it stood when the seed arrived, the others led to the rule changes in the last column and are reported now." % (n, first_caught))
+first_caught = sum(1 for v in hist.values() if v.get("first", "").startswith("caught"))
+put("SEEDTABLE", "\n".join(rows) + "\n\n%d seeded changes kept; %d were reported by the check of their own property as it stood when the seed arrived." % (n, first_caught))
 # per-property "as built" line under each §5 heading
 kf = collections.Counter(); fx = collections.Counter()
 for l in open(os.path.join(V, "KNOWN_FINDINGS.txt")):
